@@ -670,10 +670,12 @@ def run_unit(spec, tier, repo_root=None, variant=None, keep=None, extra_defs=())
                          for o in obligations if o[2] == 'FAILURE']
         # any other non-SUCCESS status (ERROR: solver out of memory / back-end failure, UNKNOWN) is NOT a refutation
         errs = [o for o in obligations if o[2] not in ('SUCCESS', 'FAILURE')]
-        if errs:
+        res['no_answer'] = len(errs)
+        if errs and not res['failed']:
+            # (with --slice-formula cbmc leaves the properties it did not need to look at as UNKNOWN once some
+            #  property FAILED; a FAILURE is a refutation on its own, so that case is reported as a failure below)
             res['reason'] = 'solver gave no answer for %d obligations (status %s, e.g. %s): undecided' % (
                 len(errs), sorted(set(o[2] for o in errs)), errs[0][0])
-            res['failed'] = []
             return res
         res['samples'] = [dict(name=o[0], description=o[1][:160], status=o[2]) for o in obligations
                           if re.search(r'postcondition|loop_invariant|assigns', o[0]) or 'loop invariant' in o[1]][:6]
